@@ -72,8 +72,18 @@ def punct_cases():
             yield {"t": [["t", "a "], r, ["t", ch], REFS6[0]], "file": 1, "form": "plain"}
 
 
+def lastblank_cases():
+    """print under last() on a file that ENDS IN A BLANK LINE: the references must show the values current on that final pass
+    (docs/functions/line_number.md: the line number is the physical index and counts blank lines)."""
+    refs = [REFS6[0], REFS6[1], REFS6[2], REFS6[4], REFS6[5]]
+    for t in templates(2, refs, texts=[" ", "..", ": ", "a"]):
+        for f in (0, 2):
+            yield {"t": t, "file": f, "form": "lastblank"}
+
+
 def cases(tier, seed):
     yield from punct_cases()
+    yield from lastblank_cases()
     if tier == "quick":
         for t in templates(3, REFS6 + [["r", "headers", "1"], ["r", "headers", "x y"], ["r", "headers", "77"]]):
             yield {"t": t, "file": 0, "form": "plain"}
@@ -107,13 +117,17 @@ def run_case(case):
 
     t, fi, form = case["t"], case["file"], case["form"]
     rows = FILES[fi]
+    if form == "lastblank":
+        rows = rows + [[]]
     path = sandbox.write_csv(rows)
     tmpl = refprint.render(t)
-    q = {"plain": "", "onmatch": ".onmatch", "once": ".once", "named": "", "once_named": ".once", "nodefault": ""}[form]
+    q = {"plain": "", "onmatch": ".onmatch", "once": ".once", "named": "", "once_named": ".once", "nodefault": "", "lastblank": ""}[form]
     pm = " print-mode: no-default" if form == "nodefault" else ""  # only the registered capture printer exists: it must still get every entry
     filt = ' #a == "k"' if form == "onmatch" else ""
     stream = ', "audit"' if form in ("named", "once_named") else ""
     text = f'~ title: T 1{pm} ~ ${path}[*][ @x = #a @d.k = #b push("s", #a) print{q}("{tmpl}"{stream}){filt} ]'
+    if form == "lastblank":
+        text = f'~ title: T 1 ~ ${path}[*][ @x = #a @d.k = #b push("s", #a) last.nocontrib() -> print("{tmpl}") ]'
     o = run.run_csvpath(text)
     # model
     exp = []
@@ -122,6 +136,21 @@ def run_case(case):
     nrec = len(rows)
     scans = 0
     for i, row in enumerate(rows):
+        if form == "lastblank":
+            if len(row) > 0:
+                x = row[0].strip()
+                d = {"k": row[1].strip()}
+                stack.append(x)
+                continue
+            # the final, blank record: variables keep their last values, the line number is this record's index
+            sx, sd, sstack = x, d, list(stack)
+            exp.append(refprint.expand(t, {
+                "variables": lambda name, sub: sx if name == "x" else (sd[sub] if name == "d" else (len(sstack) if sub == "length" else sstack[int(sub)])),
+                "headers": None,
+                "metadata": lambda name, sub: {"title": "T 1"}[name],
+                "csvpath": lambda name, sub, i=i: {"line_number": i}[name],
+            }))
+            continue
         scans += 1
         x = row[0].strip()
         d = {"k": row[1].strip()}
